@@ -79,6 +79,15 @@ package keeper
 //@   ensures linksPreserved(k.Keeper)
 //@   ensures err != nil ==> $kvHas == old($kvHas) && $kvVal == old($kvVal)
 //@   prop C15
+//@
+//@ // ---- C09: account creation never touches an existing account ----
+//@ func (k msgServer) CreateAccount(goCtx, msg) (resp, err)
+//@   requires msg != nil
+//@   modifies $accTag, $accNum, $accSeq, $accPub, $accOV, $accDF, $accDV, $accStart, $accEnd, $accNextNum
+//@   ensures existingAccountsUntouched()
+//@   ensures err == nil ==> old($accTag[fromBech32(msg.AccAddressString)]) == 0 && $accTag[fromBech32(msg.AccAddressString)] == accType("base")
+//@   ensures $kvHas == old($kvHas) && $kvVal == old($kvVal)
+//@   prop C09 C15
 
 //@ // ---- declared effects (checked per call instruction by the effect checker; anything not listed is effect-free) ----
 //@ effects Keeper.CreateReferenceId nondet.rand
